@@ -2804,6 +2804,7 @@ def kepler_equation(eccentricity, mean_anomaly):
     :returns: A tuple with two Angle objects: Eccentric and true anomalies
     :rtype: tuple
     :raises: TypeError if input values are of wrong type.
+    :raises: ValueError if eccentricity is outside the [0, 1) range.
 
     >>> eccentricity = 0.1
     >>> mean_anomaly = Angle(5.0)
@@ -2851,6 +2852,9 @@ def kepler_equation(eccentricity, mean_anomaly):
         and isinstance(mean_anomaly, Angle)
     ):
         raise TypeError("Invalid input types")
+    # Kepler's equation for elliptic motion: eccentricity in the [0, 1) range
+    if eccentricity < 0.0 or eccentricity >= 1.0:
+        raise ValueError("Eccentricity outside the [0, 1) range")
     # Let's implement the third method (from Roger Sinnot), page 206
     # First, compute the eccentric anomaly
     m = mean_anomaly.rad()
